@@ -299,7 +299,9 @@ static void info_case(Out& out, const char* kind, const std::string& path, const
     if (expect_tm) t = *expect_tm;
 
             std::string id = out.add(kind, hex_bytes(bytes.data(), bytes.size()));
-            LibraryInfo info = {};
+            // ONE summary object for the whole run, cleared between files the way a caller that scans many files uses it: clear()
+            // has to reset every counter and set, or the next summary is the sum of two files
+            static LibraryInfo info = {};
             ErrorCode err = gds_info(path.c_str(), info);
             std::string s = (int)err >= (int)ErrorCode::ChecksumError ? "ERR" : "OK";
             s += " " + num((int64_t)info.cell_names.count);
@@ -374,6 +376,45 @@ int main(int argc, char** argv) {
     Rng g(seed);
     tm t = fixed_tm();
     const std::string ts = "2020 6 17 11 22 33";
+    // strings that fill a record: 65527 .. 65529 bytes give STRING / STRNAME records of 65532 and 65534 bytes, the largest an
+    // even-length record can be (the readers' buffer holds 65537).  Decided on the implementation alone (the extracted models
+    // are list based and take minutes on such payloads): what was saved loads back, for a label text and for a cell name
+    if (want("rt")) {
+        for (int which = 0; which < 2; which++)
+            for (size_t len = 65527; len <= 65529; len++) {
+                std::string big(len, 'x');
+                for (size_t i = 0; i < big.size(); i += 97) big[i] = (char)('A' + (i / 97) % 26);
+                Library lib = {};
+                lib.init("BIG", 1.0, 1.0 / 1024);
+                Cell* cell = (Cell*)allocate_clear(sizeof(Cell));
+                cell->name = copy_string(which ? big.c_str() : "C", NULL);
+                Label* l = (Label*)allocate_clear(sizeof(Label));
+                l->init(which ? "t" : big.c_str());
+                l->magnification = 1;
+                cell->label_array.append(l);
+                lib.cell_array.append(cell);
+                std::string path = scratch + "/big.gds";
+                ErrorCode werr = lib.write_gds(path.c_str(), 0, &t);
+                ErrorCode rerr = ErrorCode::NoError;
+                Library back = read_gds(path.c_str(), 0, 1e-2, NULL, &rerr);
+                std::string verdict = "ok";
+                if (werr != ErrorCode::NoError) verdict = "FAIL gds-roundtrip write_gds refuses a string below 65530 bytes";
+                else if (rerr != ErrorCode::NoError || back.cell_array.count != 1 || back.cell_array[0]->label_array.count != 1)
+                    verdict = "FAIL gds-roundtrip a library holding a " + std::to_string(len) + "-byte " + (which ? "cell name" : "label text") + " does not load back (error code " + std::to_string((int)rerr) + ")";
+                else if (strcmp(which ? back.cell_array[0]->name : back.cell_array[0]->label_array[0]->text, big.c_str()) != 0)
+                    verdict = "FAIL gds-roundtrip a record-filling string loads back changed";
+                LibraryInfo info = {};
+                ErrorCode ierr = gds_info(path.c_str(), info);
+                if (verdict == "ok" && (ierr != ErrorCode::NoError || info.cell_names.count != 1)) verdict = "FAIL gds_info-vs-load the summary refuses a file the full reader loads (record-filling string)";
+                info.clear();
+                std::string id = out.add("rt", "bigstring " + std::to_string(which) + " " + std::to_string(len));
+                out.I(id, "-");
+                out.P(id, verdict);
+                out.count("big-string");
+                back.free_all();
+                lib.free_all();
+            }
+    }
     int nlib = thorough ? 1500 : 120;
     for (int it = 0; it < nlib; it++) {
         GenOpts o;
